@@ -630,14 +630,29 @@ class Builtins:
 
     def bi_iter(self, args, kwargs, node, fr) -> V:
         it = VBuiltin("iterator-object")
-        it.items = list(self.concrete_items(args[0]))  # type: ignore
+        src = self.unwrap(args[0], node, fr, "iterated value")
         it.pos = 0  # type: ignore
+        it.source = None  # type: ignore
+        if isinstance(src, VList) and not src.is_concrete():
+            # a symbolic list: the iterator is the list plus the (concrete) number of items already taken
+            it.items = None  # type: ignore
+            it.source = src  # type: ignore
+            return it
+        it.items = list(self.concrete_items(src))  # type: ignore
         return it
 
     def bi_next(self, args, kwargs, node, fr) -> V:
         it = args[0]
         if not (isinstance(it, VBuiltin) and it.name == "iterator-object"):
             raise Unsupported("next() of a non-iterator")
+        if it.items is None:  # type: ignore
+            src = it.source  # type: ignore
+            if self.path.branch(z3.IntVal(it.pos) < src.length()):  # type: ignore
+                it.pos += 1  # type: ignore
+                return self.list_get(src, z3.IntVal(it.pos - 1), node, fr)  # type: ignore
+            if len(args) > 1:
+                return args[1]
+            raise RaiseEx(VExc("StopIteration", []), node)
         if it.pos < len(it.items):  # type: ignore
             it.pos += 1  # type: ignore
             return it.items[it.pos - 1]  # type: ignore
